@@ -8,7 +8,9 @@ import (
 	"os"
 	"path/filepath"
 	"strconv"
+	"runtime"
 	"strings"
+	"sync/atomic"
 	"time"
 
 	"github.com/folbricht/desync"
@@ -424,7 +426,94 @@ func runC02(a vh.Args, o *vh.Oracle, r *vh.Result) error {
 			return err
 		}
 	}
+	ncs := 40
+	if a.Tier == "thorough" {
+		ncs = 1200
+	}
+	for i := 0; i < ncs; i++ {
+		if err := c02Stream(a, r, rng); err != nil {
+			return err
+		}
+	}
 	return c02Fixture(a, o, r)
+}
+
+// slowDigest delays every hash a little, so that ChunkStream's workers lag behind the chunker:
+// the index must still record the digest of the chunk's own bytes.
+type slowDigest struct {
+	desync.SHA512256
+	n *int64
+}
+
+func (h slowDigest) Sum(b []byte) [32]byte {
+	if atomic.AddInt64(h.n, 1)%3 != 0 {
+		time.Sleep(150 * time.Microsecond)
+	}
+	runtime.Gosched()
+	return h.SHA512256.Sum(b)
+}
+
+type discardStore struct{}
+
+func (discardStore) GetChunk(id desync.ChunkID) (*desync.Chunk, error) { return nil, desync.ChunkMissing{ID: id} }
+func (discardStore) HasChunk(id desync.ChunkID) (bool, error)          { return false, nil }
+func (discardStore) StoreChunk(c *desync.Chunk) error                   { return nil }
+func (discardStore) Close() error                                       { return nil }
+func (discardStore) String() string                                     { return "discard" }
+
+// c02Stream: ChunkStream (single chunker feeding n hashing workers) on inputs larger than the
+// chunker's 10*max buffer: the index must carry, for every row, the digest of blob[start:start+size].
+func c02Stream(a vh.Args, r *vh.Result, rng *vh.Rand) error {
+	mn, av, mx := c02Triple(rng)
+	size := int(mx)*(10+rng.Intn(25)) + rng.Intn(int(mx))
+	blob := rng.Bytes(size)
+	if rng.Chance(1, 3) {
+		for i := rng.Intn(size); i < size; i++ {
+			blob[i] = 0
+		}
+	}
+	n := 1 + rng.Intn(4)
+	var cnt int64
+	desync.Digest = slowDigest{n: &cnt}
+	defer func() { desync.Digest = desync.SHA512256{} }()
+	c, err := desync.NewChunker(&fragReader{data: append([]byte{}, blob...), frags: nil}, mn, av, mx)
+	if err != nil {
+		return err
+	}
+	idx, err := desync.ChunkStream(context.Background(), c, discardStore{}, n)
+	cs := &c02Case{Kind: "stream", BlobHex: vh.Hex(blob), Min: mn, Avg: av, Max: mx, N: n, Shape: "stream"}
+	r.Count(fmt.Sprintf("stream|%d|%d|%d|%d|%d", mn, av, mx, n, size), true)
+	r.Dist("stream:n:" + bucket(n))
+	if err != nil {
+		r.Fail("predicate", "stream/error", "ChunkStream failed on a readable input: "+err.Error(), cs)
+		return nil
+	}
+	var off uint64
+	for i, ch := range idx.Chunks {
+		if ch.Start != off || ch.Start+ch.Size > uint64(len(blob)) {
+			r.Fail("predicate", "stream/not-tiling", fmt.Sprintf("row %d starts at %d, expected %d", i, ch.Start, off), cs)
+			return nil
+		}
+		if ch.ID != (desync.SHA512256{}).Sum(blob[ch.Start:ch.Start+ch.Size]) {
+			r.Fail("predicate", "stream/wrong-id", fmt.Sprintf("row %d of the ChunkStream index carries an ID that is not the digest of blob[%d:%d]", i, ch.Start, ch.Start+ch.Size), cs)
+			return nil
+		}
+		off += ch.Size
+	}
+	if off != uint64(len(blob)) {
+		r.Fail("predicate", "stream/not-covering", fmt.Sprintf("ChunkStream index covers %d of %d bytes", off, len(blob)), cs)
+	}
+	seq, _, err := seqChunks(bytes.NewReader(blob), mn, av, mx)
+	if err == nil {
+		got := make([]span, len(idx.Chunks))
+		for i, ch := range idx.Chunks {
+			got[i] = span{ch.Start, ch.Size}
+		}
+		if spansStr(got) != spansStr(seq) {
+			r.Fail("predicate", "stream/differs-from-next", "ChunkStream rows differ from the Chunker.Next sequence", cs)
+		}
+	}
+	return nil
 }
 
 // The casync-made reference: testdata/chunker.input chunked by casync into testdata/chunker.index
